@@ -197,6 +197,16 @@ func runClientScenario(t *testing.T, sc *cliScenario, pickFn func(int) int) *cli
 				r.sched.hook("chan.send.mid", k, nil)
 			}
 		}
+		r.cch.midClose = func() {
+			cli := r.cli
+			if cli == nil {
+				return
+			}
+			if mu := mutexOf(cli); mu != nil && mu.TryLock() {
+				mu.Unlock()
+				r.sched.hook("chan.close.mid", "", nil)
+			}
+		}
 		// the Logger is user code: park in it whenever the client's mutex is free (see srvRun.logPark)
 		opts.Logger = func(text string) {
 			cli := r.cli
